@@ -99,7 +99,13 @@ PROP = {'title': 'Vector, dim and matrix arithmetic obeys the exact ring and mod
          'for at_r_c, at_r+at, get_unsafe.get_unsafe, mRC, row-view x/y/z/w, at_r row assignment; vector/dim at, x/y/z/w resp. w/h/d, get_unsafe, '
          'storage()[i]; static, pitched-block and strided storages; T = quat (binary C14) and int (binary C14b): = += *= -= through the accessor, '
          'then the raw elements and every accessor (const and non-const) are read back; the accessor result type must be T& / T const&',
- 'assumptions': ['narrow/mixed scalars: only operators whose declared result type is decltype(L op R) are checked on values that leave the '
+ 'assumptions': ['recorded as info:* counters, never a verdict (implementation details the property does not promise): for the symbolic scalar term the '
+                 'order in which the products of a component are summed, whether the sum starts from a literal 0, a-b as a+(-b), compound forms '
+                 '(info:...:expression_shape), the number of scalar operator invocations (info:...:invocations), reads of a moved-from scalar that do '
+                 'not reach the result (info:...:moved_from_read); for accessors the exact result type T& / T const& / matrix::reference '
+                 '(info:write_access...:result_type) -- judged is only which two scalars are multiplied on which side, the values, and that writes '
+                 'through an accessor arrive',
+                 'narrow/mixed scalars: only operators whose declared result type is decltype(L op R) are checked on values that leave the '
                  'operand range; functions returning the operand type T (dot, determinant, cross, compound assignment, transform_point) narrow by '
                  'design and are checked with int only; unsigned short / unsigned int mixing is excluded (promotion to int overflows / modular '
                  'arithmetic is not an exact scalar)',
